@@ -41,6 +41,20 @@ PREF = {
        "and your change mishandles; (b) the COMBINATION of two options or settings that are each handled correctly alone; (c) state carried by a "
        "module-level or class-level variable, default argument or cache from one call / object / file to the next. It must still be realistic "
        "and keep all 81 tests passing."),
+ 'j': ("PREFERRED this time, one of: (a) ORDER AND TIES - behaviour that depends on the order of equal keys or equal scores: sort stability, "
+       "max / min / argmax / most_common on ties, first-versus-last wins when a dict or table is filled twice, iteration order of sets, the "
+       "order in which records with the same coordinate or the same name arrive; (b) TYPES - a value arriving as another type than usual and "
+       "legal: numpy integer instead of int, a tag stored as string instead of integer (or the reverse), float coordinates, bytes versus str, "
+       "a tuple where a list is usual, None versus missing; (c) LIFECYCLE - an object used for a second call, an iterator partially consumed and "
+       "resumed, a generator abandoned early, a context manager left by an exception, copies that share a mutable member with their original, "
+       "a file that is closed later than the next one is opened. It must still be realistic and keep all 81 tests passing."),
+ 'k': ("PREFERRED this time, one of: (a) a CONVENTION shared by two places of the code that must agree - 0- versus 1-based coordinates, inclusive "
+       "versus exclusive interval ends, the spelling or type of a tag / column / file name that one module writes and another reads, strand or "
+       "mate conventions, units - broken on ONE side only, so that each side still looks right on its own; (b) a DOCUMENTED BUT RARELY USED "
+       "parameter, option or return form of the anchored functions / command lines (read the docstrings and argparse help) that none of the "
+       "earlier bugs involves; (c) the EXTREMES OF A COLLECTION: empty input, exactly one element, all elements equal, exactly one element more "
+       "than a chunk / batch / page size, the first and the last element of an iteration, a group that becomes empty after filtering. It must "
+       "still be realistic and keep all 81 tests passing."),
 }
 props = [json.loads(l) for l in open(os.path.join(V, 'properties.jsonl'))]
 tmpl = open('/tmp/agent_prompt_template.txt').read() if os.path.exists('/tmp/agent_prompt_template.txt') else None
